@@ -34,6 +34,15 @@ CLAIMS['C04'] = dict(level='other', technique='MIR event pairing of structural e
     note='Reviewed ledger of trigger sites in rules/c04.py; a new trigger site is reported until reviewed. Known finding: Element::set_character_data on SHORT-NAME skips the uniqueness check (documented API use).',
     ref='§4 C04')
 
+CLAIMS['C05'] = dict(level='other', technique='MIR event pairing of reference-text writes and subtree edits with reverse-map maintenance (dominance / all-paths incl. error exits), Engler-style deviance rule on HashMap::insert, sibling column agreement between the invalid-reference report and the resolver',
+    text='Decides that every write of a reference text and every subtree insertion/removal is paired with the matching edit of reference_origins on all paths, that no exit separates the index edit from the text write, that no referrer list is silently overwritten (found and repaired: rename/move dropped pre-existing referrers of the new path), and that check_references and get_reference_target apply the same four tests. Does not decide map = references in the tree after histories.',
+    note='Path-insensitive: value-dependent pattern failures (non-string value, not a reference) are cut as infeasible edges and listed in the rule; identity by co-occurrence + variable provenance.',
+    ref='§4 C05')
+CLAIMS['C06'] = dict(level='other', technique='ordered must-pass-through obligations (dominance / all-Ok-paths) on the MIR of the rename and the two move workers, provenance of the rewrite loop iterable and of key vs. text',
+    text='Decides that on the item-name path and both move paths every Ok path performs all maintenance steps in order (re-key path index, rewrite every referrer, re-key the referrer map, register in the destination), that the rewrite loop runs over exactly the paths collected from the moved subtree before unlinking, and that rewritten text and stored key agree. Does not decide that each reference resolves to the same object afterwards.',
+    note='Scoped to ElementRaw::{set_item_name, move_element_local, move_element_full} and their public entry points.',
+    ref='§4 C06')
+
 NA = {
     'C16': 'serialisability quantifies over interleavings and compares with sequential runs; the only static route (two-phase/reduction analysis) rejects essentially every public operation of the present design, so it cannot separate code that holds the property from code that does not',
     'C20': 'statement about numeric results (exactness, correct rounding, overflow per width) computed by std parsers for all texts; no static argument in reach bounds these run-time quantities',
